@@ -30,6 +30,10 @@ Regexes == { Cat([t |-> "bol"], Cat(Chr(97), Chr(98))), Cat(Chr(98), [t |-> "eol
              Cat(Chr(97), Chr(92)),                          \* a\    (pattern text ends with an escaped backslash)
              Cat([t |-> "bol"], Cat(Chr(97), Cat(Chr(92), Cat(Chr(47), [t |-> "eol"])))),   \* ^a\/$ : backslash then slash
              [t |-> "star", a |-> Chr(120)],
+             \* anchors inside alternatives: only one alternative can match where it stands (the example has to take that one)
+             Cat(Chr(120), [t |-> "alt", a |-> Cat([t |-> "bol"], Chr(97)), b |-> Chr(98)]),                  \* x(?:^a|b)
+             Cat([t |-> "alt", a |-> Cat(Chr(97), [t |-> "eol"]), b |-> Chr(98)], Chr(99)),                  \* (?:a$|b)c
+             Cat([t |-> "plus", a |-> [t |-> "alt", a |-> Cat(Chr(97), [t |-> "eol"]), b |-> Chr(98)]], Chr(99)),   \* (?:a$|b)+c
              \* control characters and DEL: the example of such a type has to be quoted as JSON when the type is added
              Chr(7), Cat(Chr(97), Chr(127)), [t |-> "plus", a |-> [t |-> "set", cs |-> <<1, 8, 12, 31>>, neg |-> FALSE]], Cat(Chr(34), Cat(Chr(92), Chr(9))) }
 \* Level 2: every regular expression of two operands over a small atom set (a character, a character that must be escaped
